@@ -62,6 +62,7 @@ typedef struct {
   double lowpass_khz;       /* <=0: untouched */
   double impulse_block_bias;/* NaN-free: 0 => untouched, else set */
   int have_rm2; double rm2_reservoir_bits_secs; double rm2_bias; double rm2_damping; /* RATEMANAGE2 override */
+  int rm2_avg_off; long rm2_max_kbps;   /* with have_rm2: switch average tracking off / set the hard maximum through the control interface (0: untouched) */
   int sig; uint64_t sigseed; long nsamples;
   int chunk; int lazy;
   int direct;               /* unmanaged only: take packets from vorbis_analysis(vb,&op) instead of addblock/flushpacket */
